@@ -1,6 +1,7 @@
 // mdarray op family (C12): construction, adoption, copy/move, element access, views
 #pragma once
 #include "mapsrv.hpp"
+#include "viewsrv.hpp"      // user layouts whose is_unique / is_exhaustive / is_strided answers differ from one another
 #include <mdspan/mdarray.hpp>
 #include <optional>
 namespace vh {
